@@ -183,7 +183,11 @@ func (s *Service) createAndUpdateFreeVirtual(
 	}
 
 	if opts.OverwriteIfNameExistsAndDifferentProperties {
-		if err := s.deleteOverwritten(ctx, tx, channels); err != nil {
+		overwritten, err := s.deleteOverwritten(ctx, tx, channels)
+		if err != nil {
+			return err
+		}
+		if err = s.cfg.TSChannel.DeleteChannels(overwritten); err != nil {
 			return err
 		}
 	}
@@ -405,21 +409,25 @@ func (s *Service) retrieveExistingAndAssignKeys(
 	return toCreate, nil
 }
 
+// deleteOverwritten removes the stored channels that the given channels overwrite (same
+// name, different properties) from the metadata and returns their storage keys. Removing
+// them from the time-series engine is left to the caller: the engine is not part of the
+// transaction, so that has to wait until the channels that replace them are in.
 func (s *Service) deleteOverwritten(
 	ctx context.Context,
 	tx gorp.Tx,
 	channels *[]Channel,
-) error {
+) ([]ts.ChannelKey, error) {
 	names := Names(*channels)
 	if len(names) == 0 {
-		return nil
+		return nil, nil
 	}
 	var existing []Channel
 	if err := s.newRetrieve().
 		Where(MatchNames(names...)).
 		Entries(&existing).
 		Exec(ctx, tx); err != nil {
-		return errors.Skip(err, query.ErrNotFound)
+		return nil, errors.Skip(err, query.ErrNotFound)
 	}
 	keysToDelete := make(Keys, 0, len(existing))
 	storageToDelete := make([]ts.ChannelKey, 0, len(existing))
@@ -441,10 +449,10 @@ func (s *Service) deleteOverwritten(
 		if err := s.table.NewDelete().
 			Where(gorp.MatchKeys[Key, Channel](keysToDelete...)).
 			Exec(ctx, tx); err != nil {
-			return err
+			return nil, err
 		}
 	}
-	return s.cfg.TSChannel.DeleteChannels(storageToDelete)
+	return storageToDelete, nil
 }
 
 func (s *Service) createGateway(
@@ -453,8 +461,10 @@ func (s *Service) createGateway(
 	channels *[]Channel,
 	opts CreateOptions,
 ) error {
+	var overwritten []ts.ChannelKey
 	if opts.OverwriteIfNameExistsAndDifferentProperties {
-		if err := s.deleteOverwritten(ctx, tx, channels); err != nil {
+		var err error
+		if overwritten, err = s.deleteOverwritten(ctx, tx, channels); err != nil {
 			return err
 		}
 	}
@@ -492,6 +502,12 @@ func (s *Service) createGateway(
 	if err = s.table.NewCreate().
 		Entries(&toCreate).
 		Exec(ctx, tx); err != nil {
+		return errors.Combine(err, s.cfg.TSChannel.DeleteChannels(createdKeys))
+	}
+	// The channels this batch overwrites leave the engine last: had they been removed up
+	// front, a failure above would have lost them (and their data) while the rolled back
+	// metadata still lists them.
+	if err = s.cfg.TSChannel.DeleteChannels(overwritten); err != nil {
 		return errors.Combine(err, s.cfg.TSChannel.DeleteChannels(createdKeys))
 	}
 	s.mu.externalNonVirtualSet.Insert(externalCreatedKeys...)
